@@ -35,7 +35,7 @@ func checkC19(c *Check) {
 	other := returnsWhere(pg, func(s *PState) bool {
 		return !retNilErr(s, 1) && !retHasType(s, 1, "ncg/signature.InvalidArgumentError") && !retHasType(s, 1, "ncg/signature.SignatureAuthenticityError")
 	})
-	c.floor("VerifyAuthenticity returns", 4, len(distinctNodes(rets)))
+	c.floor("VerifyAuthenticity returns", 2, len(distinctNodes(rets)))
 	c.add("O-C19.1", "closed error set", "every failing return is an InvalidArgumentError or a SignatureAuthenticityError", len(other) == 0, posOf(pg, other))
 	// O-C19.1 argument errors, two-sided
 	c.mustPass(pg, "O-C19.1", "argument error only for bad arguments", "an InvalidArgumentError return", argErr, AnyOf(A("+Empty(p1)"), A("+IsNil(p0)")))
